@@ -126,6 +126,7 @@ Definition H_att_name := Eval vm_compute in handlers_of "put_submodel_submodel_e
 Definition H_att_resp := Eval vm_compute in handlers_of "get_submodel_submodel_element_attachment" "Response".
 Definition H_bind := Eval vm_compute in handlers_of "handle_request" "self.url_map.bind_to_environ".
 Definition H_put_elem_update := Eval vm_compute in handlers_of "put_submodel_submodel_elements_id_short_path" "submodel_element.update_from".
+Definition H_att_assign := Eval vm_compute in handlers_of "put_submodel_submodel_element_attachment" "set:submodel_element.value".
 Definition H_att_delete := Eval vm_compute in handlers_of "delete_submodel_submodel_element_attachment" "self.file_store.delete_file".
 Definition H_delete_aas_remove := Eval vm_compute in handlers_of "delete_aas" "self.object_store.remove".
 Definition H_delete_sm_remove := Eval vm_compute in handlers_of "delete_submodel" "self.object_store.remove".
@@ -366,12 +367,22 @@ Fixpoint edit_children (ch : children) (p : list name) (f : elem -> edit) : chil
 (* NamespaceSet.add of a Referable into the children of a node of class m:
    AASd-117 (no idShort outside a list), AASd-022 (idShort taken), and for lists AASd-120 (idShort
    given) / AASd-108,109 (the lists of the pool hold Property items) *)
-Definition add_referable (m : option mt) (ch : children) (e : elem) : result children :=
+(* for a SubmodelElementList the [ctype] field of [Elem] holds its typing: 0 = Property / xs:string items,
+   1 = Range / xs:int items, 2 = Property / xs:string items with a semanticIdListElement (the items of the
+   pool carry no semanticId of their own, so AASd-107/114 never strike) *)
+Definition list_accepts (lt : nat) (m : mt) : bool :=
+  match lt, m with
+  | 1%nat, MRange => true
+  | 1%nat, _ => false
+  | _, MProp => true
+  | _, _ => false
+  end.
+Definition add_referable (m : option mt) (lt : nat) (ch : children) (e : elem) : result children :=
   match m with
   | Some MList =>
     match e_ids e with
     | Some _ => Exc (EConstraint 120)
-    | None => if mt_eqb (e_mt e) MProp then Ok (ch ++ [(None, e)]) else Exc (EConstraint 108)
+    | None => if list_accepts lt (e_mt e) then Ok (ch ++ [(None, e)]) else Exc (EConstraint 108)
     end
   | _ =>
     match e_ids e with
@@ -781,7 +792,8 @@ Definition handler (ep : endpoint) (s : state) (r : request) : HR :=
     match v with
     | VElem e =>
       let pch := match parent with Some x => e_ch x | None => sm_ch sm end in
-      do ch' <- guard H_post_elem_add (add_referable pm pch e) (Ok pch);
+      let plt := match parent with Some x => e_ctype x | None => 0%nat end in
+      do ch' <- guard H_post_elem_add (add_referable pm plt pch e) (Ok pch);
       let s' := match the_path r with
                 | [] => put_sm_back s (the_id (r_sm r)) sm ch'
                 | p => edit_sm s (the_id (r_sm r)) sm p (fun x => Keep (set_ch x ch'))
@@ -861,6 +873,9 @@ Definition handler (ep : endpoint) (s : state) (r : request) : HR :=
         | Some (mime, c) =>
           if negb (Nat.eqb mime (e_ctype e)) then http "UnsupportedMediaType" else
           let '(f', n) := files_add (st_files s) nm c (e_ctype e) in
+          (* File.value = <name returned by add_file>: PathType allows 2000 characters; the except-body takes the
+             file out again (add_file then delete_file of a fresh name: the container is as before) *)
+          if Nat.ltb 2000 (String.length n) then guard H_att_assign (Exc EValue) (Exc EValue) else
           ok (set_files (edit_sm s (the_id (r_sm r)) sm (the_path r) (fun x => Keep (set_val x (APath n)))) f')
              (respond fn 0 r None None)
         end
